@@ -14,7 +14,7 @@ def _raises():
 def run(report):
     add_obs(report, _raises)
     # the disk load as a VC: no exception escapes whatever the primitives raise or return, a stale or foreign pickle is None
-    verify_keys(report, ['parso.cache._load_from_file_system'])
+    verify_keys(report, ['parso.cache._load_from_file_system', 'parso.cache.try_to_save_module'])
     report.assume("trusted raises sets of the primitives (pv/obs_effects.py PRIM_RAISES): pickle.load may raise anything, "
                   "open/os.* raise OSError subclasses, pickle.dump raises OSError/PicklingError/RecursionError",
                   "exception-effect analysis pv/effects.py (explicit raises + primitive raises + callee raises, minus "
